@@ -17,7 +17,10 @@ class Case:
     def __init__(self, line):
         t = line.split()
         self.line = line
-        self.dir = t[1]
+        # "b1s"/"b2s": slow but successful: every message gets through within its retransmission
+        # budget (no exchange is abandoned), so the transfer must complete
+        self.slow = t[1] in ("b1s", "b2s")
+        self.dir = t[1][:2] if self.slow else t[1]
         self.len = int(t[2])
         self.seed = int(t[3])
         self.type = int(t[4])
@@ -30,6 +33,11 @@ class Case:
 
     def lossless(self):
         return all(c == "." for c in self.sched)
+
+    def must_complete(self):
+        # completion is promised only when no datagram is lost or duplicated; a slow transfer
+        # (self.slow) may fail, but explicitly (O5, O8, O9)
+        return self.lossless()
 
 
 def parse(out):
@@ -115,6 +123,10 @@ def oracle(case, out):
                 late = (success + errors + nacks) > 0 and not case.lossless()
                 bad.append("%s response handler saw token %s, the application's is %s" %
                            ("O3STALE" if late else "O3", f[2], case.tok))
+            if code == 95:
+                if not late:
+                    bad.append("O9 the application's response handler was given an intermediate 2.31 Continue")
+                continue
             if code >> 5 == 2:
                 if case.dir == "b2":
                     off, total, ln, eq = int(f[4]), int(f[5]), int(f[6]), f[8]
@@ -194,16 +206,35 @@ def oracle(case, out):
             bad.append("coap_add_data_large_* refused but a body was delivered")
         if case.dir == "b2" and case.lossless() and errors == 0:
             bad.append("O5 coap_add_data_large_response refused but the requester saw no error response")
-    elif case.lossless():
+    elif case.must_complete():
+        why = "no datagram lost or duplicated" if case.lossless() else \
+              "every message got through within its retransmission budget"
         if case.len > 0 and complete != 1:
-            bad.append("O4 no datagram lost or duplicated but %d complete deliveries (%d handler calls)"
-                       % (complete, len(deliveries)))
+            bad.append("O4 %s but %d complete deliveries (%d handler calls)"
+                       % (why, complete, len(deliveries)))
         if success != 1 or errors or nacks:
-            bad.append("O4 no datagram lost or duplicated but success responses=%d errors=%d nacks=%d"
-                       % (success, errors, nacks))
-    # O5
+            bad.append("O4 %s but success responses=%d errors=%d nacks=%d"
+                       % (why, success, errors, nacks))
+    # O8: a success told to the uploader means the server application has the body
+    if case.dir == "b1" and not refused and success > 0 and complete == 0 and case.len > 0:
+        bad.append("O8 the uploader was given a success response but the body was never delivered")
+    # O5: a Confirmable request of the client that was transmitted MAX_RETRANSMIT+1 times without
+    # any reply reaching the client is abandoned: the application must then have been told
+    # (silence after an acknowledged request whose separate response was lost is the network's)
     if case.type == 0 and success == 0 and errors == 0 and nacks == 0 and not (refused and case.dir == "b1"):
-        bad.append("O5 confirmable request ended without response, error or NACK")
+        sent_n, answered = {}, set()
+        txs = {}
+        for f in ev:
+            if f[0] == "TXc" and f[2] == "0":
+                sent_n[f[4]] = sent_n.get(f[4], 0) + 1
+            elif f[0] == "TXs" and f[2] in ("2", "3"):
+                txs[f[1]] = f[4]
+            elif f[0] == "RX" and f[1] in txs:
+                answered.add(txs[f[1]])
+        abandoned = [m for m, n in sent_n.items() if n >= 5 and m not in answered]
+        if abandoned or case.lossless():
+            bad.append("O5 confirmable request (mid %s) was abandoned but the application got no "
+                       "response, error or NACK" % ",".join(abandoned[:3]))
     # O7
     if fin:
         rel_c, rel_s = int(fin[1]), int(fin[2])
